@@ -323,3 +323,666 @@ Proof.
   rewrite IH; [now rewrite V | exact C' | | exact Fr].
   change (dests ?s) with (v_dests (view s)). rewrite V. now apply vstep_never.
 Qed.
+
+Ltac vsimpl := cbn [v_added v_buf v_dests v_gone v_glob v_next].
+
+(* ---- what a destination is offered over a stretch of history ------------------ *)
+Lemma trace_v_unreg v id : cnt id (v_dests v) = 0 -> cnt id (v_gone v) = 0 -> trace_v v id = [].
+Proof.
+  intros D G. unfold trace_v. rewrite lookup_app, (lookup_cnt0 _ _ D), (lookup_cnt0 _ _ G). reflexivity.
+Qed.
+
+(* a destination that is not registered and never will be: nothing further *)
+Lemma stretch_gone id h : forall v,
+  v_added v = true -> cnt id (v_dests v) = 0 -> cnt id (hist_dests h) = 0 ->
+  trace_v (vrun h v) id = trace_v v id.
+Proof.
+  unfold vrun. induction h as [|x r IH]; intros v A D H; [reflexivity|].
+  rewrite hist_dests_cons, cnt_app in H. cbn [fold_left].
+  assert (T : trace_v (vstep v x) id = trace_v v id /\ v_added (vstep v x) = true /\
+              cnt id (v_dests (vstep v x)) = 0).
+  { unfold trace_v. destruct x as [mt fs|ds|i|fs]; cbn [vstep added_dests] in *; rewrite ?A; vsimpl.
+    - rewrite cnt_bump. repeat split; auto.
+      rewrite !lookup_app, lookup_bump, (lookup_cnt0 _ _ D). reflexivity.
+    - rewrite cnt_app. repeat split; auto; [|lia].
+      rewrite !lookup_app, (lookup_cnt0 _ _ D). rewrite (lookup_cnt0 id ds) by lia. reflexivity.
+    - pose proof (remove_dest_spec i (v_dests v)) as R.
+      destruct (remove_dest i (v_dests v)) as [ds [d|]]; vsimpl; [|auto].
+      destruct R as (R1 & R2 & R3 & R4).
+      destruct (Nat.eq_dec id i) as [->|Ne].
+      { apply lookup_some in R2. lia. }
+      repeat split; auto.
+      + rewrite !lookup_app, (R4 id Ne), (lookup_cnt0 _ _ D).
+        destruct (lookup id (v_gone v)); [reflexivity|].
+        unfold lookup. cbn [find]. rewrite R1.
+        now rewrite (proj2 (Nat.eqb_neq _ _) (not_eq_sym Ne)).
+      + specialize (R3 id). lia.
+    - auto. }
+  destruct T as (T1 & T2 & T3). rewrite IH by (auto; lia). exact T1.
+Qed.
+
+(* a registered destination: everything logged until its removal, each message with
+   the global fields in force when it was logged *)
+Lemma stretch_registered id h : forall v d,
+  v_added v = true -> lookup id (v_dests v) = Some d -> cnt id (v_dests v) <= 1 ->
+  cnt id (v_gone v) = 0 -> cnt id (hist_dests h) = 0 ->
+  trace_v (vrun h v) id = d_log d ++ stamped (v_glob v) (v_next v) (until_removed id h).
+Proof.
+  induction h as [|x r IH]; intros v d A L D G H.
+  - unfold vrun, trace_v. cbn [fold_left until_removed stamped]. rewrite lookup_app, L. now rewrite app_nil_r.
+  - rewrite hist_dests_cons, cnt_app in H. unfold vrun. cbn [fold_left]. fold (vrun r (vstep v x)).
+    destruct x as [mt fs|ds|i|fs]; cbn [vstep added_dests until_removed stamped] in *; rewrite ?A.
+    + rewrite (IH _ (bump [fupdate (logged_msg (v_next v) mt fs) (v_glob v)] d)); vsimpl;
+        rewrite ?cnt_bump; auto; [|now rewrite lookup_bump, L].
+      unfold bump. cbn [d_log]. now rewrite <- app_assoc.
+    + rewrite (IH _ d); vsimpl; rewrite ?cnt_app; auto; [now rewrite lookup_app, L | lia | lia].
+    + pose proof (remove_dest_spec i (v_dests v)) as R.
+      destruct (remove_dest i (v_dests v)) as [ds [d0|]].
+      * destruct R as (R1 & R2 & R3 & R4). destruct (Nat.eqb i id) eqn:E.
+        -- apply Nat.eqb_eq in E. rewrite E in *. clear E i. rewrite L in R2. inversion R2; subst d0.
+           cbn [stamped]. rewrite app_nil_r.
+           pose proof (R3 id) as R3'. rewrite Nat.eqb_refl in R3'.
+           rewrite stretch_gone; vsimpl; auto; try lia.
+           unfold trace_v. vsimpl. rewrite !lookup_app, (lookup_cnt0 id ds) by lia.
+           rewrite (lookup_cnt0 _ _ G). unfold lookup. cbn [find]. now rewrite R1, Nat.eqb_refl.
+        -- apply Nat.eqb_neq in E. cbn [stamped].
+           pose proof (R3 id) as R3'. rewrite (proj2 (Nat.eqb_neq _ _) E) in R3'.
+           rewrite (IH _ d); vsimpl; auto; try lia.
+           ++ rewrite R4; auto.
+           ++ rewrite cnt_app, cnt_cons, R1, (proj2 (Nat.eqb_neq _ _) E). cbn [cnt map count_occ]. lia.
+      * destruct R as (_ & R2). destruct (Nat.eqb i id) eqn:E.
+        -- apply Nat.eqb_eq in E. rewrite E in *. apply lookup_some in L. lia.
+        -- cbn [stamped]. apply IH; auto; lia.
+    + rewrite (IH _ d); vsimpl; auto; lia.
+Qed.
+
+Lemma split_reg_cons id x r :
+  split_reg id (x :: r) =
+  if match x with HAdd ds => adds_id id ds | _ => false end then Some ([], r)
+  else match split_reg id r with Some (p, q) => Some (x :: p, q) | None => None end.
+Proof. reflexivity. Qed.
+
+(* a destination not yet registered, after the first add: only what is logged after
+   its own registration *)
+Lemma stretch_later id h : forall v,
+  v_added v = true -> cnt id (v_dests v) = 0 -> cnt id (v_gone v) = 0 ->
+  cnt id (hist_dests h) <= 1 -> Forall (fun d => d_log d = []) (hist_dests h) ->
+  trace_v (vrun h v) id =
+  match split_reg id h with
+  | None => []
+  | Some (pre, post) =>
+      stamped (globals_after (v_glob v) pre) (v_next v + count_logs pre) (until_removed id post)
+  end.
+Proof.
+  induction h as [|x r IH]; intros v A D G H E.
+  - unfold vrun. cbn [fold_left split_reg]. now apply trace_v_unreg.
+  - rewrite hist_dests_cons in H, E. rewrite cnt_app in H. apply Forall_app in E as [Ex Er].
+    unfold vrun. cbn [fold_left]. fold (vrun r (vstep v x)). rewrite split_reg_cons.
+    destruct x as [mt fs|ds|i|fs]; cbn [vstep added_dests] in *; rewrite ?A.
+    + rewrite IH; vsimpl; rewrite ?cnt_bump; auto.
+      destruct (split_reg id r) as [[p q]|]; [|reflexivity].
+      cbn [globals_after count_logs]. now rewrite Nat.add_succ_r.
+    + pose proof (adds_id_lookup id ds) as AL. destruct (adds_id id ds).
+      * destruct AL as (d & Ld). pose proof (lookup_some _ _ _ Ld) as (_ & C1).
+        rewrite (stretch_registered id r _ d); vsimpl; rewrite ?cnt_app; auto; try lia.
+        -- assert (In d ds) as Hin by (apply find_some in Ld; tauto).
+           cbn [globals_after count_logs].
+           rewrite (proj1 (Forall_forall _ _) Ex d Hin). now rewrite Nat.add_0_r.
+        -- now rewrite lookup_app, (lookup_cnt0 _ _ D).
+      * rewrite IH; vsimpl; rewrite ?cnt_app; auto; try lia.
+        destruct (split_reg id r) as [[p q]|]; reflexivity.
+    + pose proof (remove_dest_spec i (v_dests v)) as R.
+      destruct (remove_dest i (v_dests v)) as [ds [d0|]].
+      * destruct R as (R1 & R2 & R3 & R4).
+        assert (i <> id) as Ne by (intros ->; apply lookup_some in R2; lia).
+        pose proof (R3 id) as R3'. rewrite (proj2 (Nat.eqb_neq _ _) Ne) in R3'.
+        rewrite IH; vsimpl; auto; try lia.
+        -- destruct (split_reg id r) as [[p q]|]; reflexivity.
+        -- rewrite cnt_app, cnt_cons, R1, (proj2 (Nat.eqb_neq _ _) Ne). cbn [cnt map count_occ]. lia.
+      * rewrite IH; auto. destruct (split_reg id r) as [[p q]|]; reflexivity.
+    + rewrite IH; vsimpl; auto. destruct (split_reg id r) as [[p q]|]; reflexivity.
+Qed.
+
+(* from the start-up state: the buffer is handed to the destinations of the first add *)
+Lemma stretch_startup id h : forall v,
+  v_added v = false -> v_dests v = [] -> cnt id (v_gone v) = 0 ->
+  cnt id (hist_dests h) <= 1 -> Forall (fun d => d_log d = []) (hist_dests h) ->
+  trace_v (vrun h v) id =
+  match split_reg id h with
+  | None => []
+  | Some (pre, post) =>
+      (if has_add pre then []
+       else map (fun m => fupdate m (globals_after (v_glob v) pre))
+                (fold_left buffer_add (stamped (v_glob v) (v_next v) pre) (v_buf v)))
+      ++ stamped (globals_after (v_glob v) pre) (v_next v + count_logs pre) (until_removed id post)
+  end.
+Proof.
+  induction h as [|x r IH]; intros v A D G H E.
+  - unfold vrun. cbn [fold_left split_reg]. apply trace_v_unreg; [now rewrite D | exact G].
+  - rewrite hist_dests_cons in H, E. rewrite cnt_app in H. apply Forall_app in E as [Ex Er].
+    unfold vrun. cbn [fold_left]. fold (vrun r (vstep v x)). rewrite split_reg_cons.
+    destruct x as [mt fs|ds|i|fs]; cbn [vstep added_dests] in *; rewrite ?A.
+    + rewrite IH; vsimpl; auto.
+      destruct (split_reg id r) as [[p q]|]; [|reflexivity].
+      cbn [globals_after count_logs has_add existsb orb stamped fold_left]. fold (has_add p).
+      now rewrite Nat.add_succ_r.
+    + pose proof (adds_id_lookup id ds) as AL. destruct (adds_id id ds).
+      * destruct AL as (d & Ld). pose proof (lookup_some _ _ _ Ld) as (_ & C1).
+        set (B := map (fun m => fupdate m (v_glob v)) (v_buf v)).
+        rewrite (stretch_registered id r _ (bump B d)); vsimpl; rewrite ?cnt_bump; auto; try lia.
+        -- assert (In d ds) as Hin by (apply find_some in Ld; tauto).
+           unfold bump. cbn [d_log has_add existsb globals_after stamped fold_left count_logs].
+           rewrite (proj1 (Forall_forall _ _) Ex d Hin). now rewrite Nat.add_0_r.
+        -- now rewrite lookup_bump, Ld.
+      * rewrite stretch_later; vsimpl; rewrite ?cnt_bump; auto; try lia.
+        destruct (split_reg id r) as [[p q]|]; reflexivity.
+    + rewrite D. cbn [remove_dest]. rewrite IH; auto.
+      destruct (split_reg id r) as [[p q]|]; reflexivity.
+    + rewrite IH; vsimpl; auto. destruct (split_reg id r) as [[p q]|]; reflexivity.
+Qed.
+
+Lemma stamped_length g n h : length (stamped g n h) = count_logs h.
+Proof.
+  revert g n. induction h as [|x r IH]; intros g n; [reflexivity|].
+  destruct x; cbn [stamped count_logs length]; now rewrite ?IH.
+Qed.
+
+(* C12 (histories): for every history of log / add_destinations /
+   remove_destination / add_global_fields calls whose destination objects are
+   distinct, fresh and never raise -- any length, any number of buffered
+   messages, several destinations per add, removals of unknown destinations
+   included -- every destination has been offered exactly [spec_received]:
+   list equality, so "exactly once", "in order", "buffered ones first", "only
+   the first add's destinations", "nothing after removal" are all part of it. *)
+Theorem C12_history cfg h id :
+  wf_history h ->
+  trace_of (run cfg (map hop_op h) init_state) id = spec_received id h.
+Proof.
+  intros [ND F]. rewrite trace_of_view, run_view.
+  - change (view init_state) with (mkHV false [] [] [] [] 0).
+    rewrite stretch_startup; cbn [v_added v_dests v_gone v_glob v_next v_buf]; auto.
+    + unfold spec_received. destruct (split_reg id h) as [[p q]|]; [|reflexivity].
+      cbn [Nat.add]. destruct (has_add p); [reflexivity|].
+      destruct (C12_buffer_cap [] (stamped [] 0 p)) as (E & _); [apply Nat.le_0_l|].
+      now rewrite E.
+    + unfold cnt. apply (proj1 (NoDup_count_occ Nat.eq_dec _) ND).
+    + eapply Forall_impl; [|exact F]. cbn beta. tauto.
+  - reflexivity.
+  - constructor.
+  - eapply Forall_impl; [|exact F]. cbn beta. tauto.
+Qed.
+
+(* ---- non-vacuity: a concrete history ------------------------------------------ *)
+Definition ex_d (i : nat) : dest := mk_dest i BNever (mkExn 1 C_Exception 7%positive false).
+Definition ex_h : list hop :=
+  [HLog (VTypeName 10%positive) [(20%positive, VInt 1)];
+   HGlobals [(30%positive, VInt 7)];
+   HRemove 5;
+   HLog (VTypeName 11%positive) [(30%positive, VInt 0)];
+   HGlobals [(31%positive, VInt 8)];
+   HAdd [ex_d 0; ex_d 1];
+   HLog (VTypeName 12%positive) [];
+   HGlobals [(30%positive, VInt 9)];
+   HAdd [ex_d 2];
+   HLog (VTypeName 13%positive) [];
+   HRemove 0;
+   HLog (VTypeName 14%positive) []].
+
+Lemma ex_h_wf : wf_history ex_h.
+Proof.
+  split.
+  - cbn. repeat constructor; cbn; intuition discriminate.
+  - cbn. repeat constructor; intros n m; reflexivity.
+Qed.
+
+(* destinations 0 and 1 get the two buffered messages first (both carrying the
+   fields in force at the add: f30 = 7 overrides the message's own f30 = 0), then
+   the later ones; 0 nothing after its removal; 2 only what was logged after its
+   own registration; 3 was never registered *)
+Example C12_history_ex :
+  map (fun i => map (fun m => (fget 5%positive m, fget 30%positive m, fget 31%positive m))
+                    (trace_of (run ex_cfg (map hop_op ex_h) init_state) i)) [0; 1; 2; 3] =
+  let t := fun n => Some (VTypeName n) in
+  [ [(t 10%positive, Some (VInt 7), Some (VInt 8)); (t 11%positive, Some (VInt 7), Some (VInt 8));
+     (t 12%positive, Some (VInt 7), Some (VInt 8)); (t 13%positive, Some (VInt 9), Some (VInt 8))];
+    [(t 10%positive, Some (VInt 7), Some (VInt 8)); (t 11%positive, Some (VInt 7), Some (VInt 8));
+     (t 12%positive, Some (VInt 7), Some (VInt 8)); (t 13%positive, Some (VInt 9), Some (VInt 8));
+     (t 14%positive, Some (VInt 9), Some (VInt 8))];
+    [(t 13%positive, Some (VInt 9), Some (VInt 8)); (t 14%positive, Some (VInt 9), Some (VInt 8))];
+    [] ].
+Proof.
+  cbn [map]. rewrite !(C12_history ex_cfg ex_h _ ex_h_wf). vm_compute. reflexivity.
+Qed.
+
+(* ===================================================================== *)
+(* global fields: valid for ALL destination behaviours (failure reports included) *)
+
+(* message.update(g), read as dicts *)
+Lemma fget_fupdate_dict k g : forall m,
+  fget k (fupdate m g) = match fget k (mkfields g) with Some v => Some v | None => fget k m end.
+Proof.
+  unfold mkfields, fupdate. induction g as [|[k' v'] r IH]; intros m; cbn [fold_left fst snd]; [reflexivity|].
+  rewrite (IH (fset k' v' m)), (IH (fset k' v' [])).
+  match goal with |- context [fget k (fold_left ?f r [])] => destruct (fget k (fold_left f r [])) end;
+    [reflexivity|].
+  destruct (Pos.eq_dec k' k) as [->|Ne].
+  - now rewrite !fget_fset_same.
+  - now rewrite !(fget_fset_other _ _ _ _ Ne).
+Qed.
+
+Lemma carries_fupdate g m : carries g (fupdate m g).
+Proof. intros k v H. now rewrite fget_fupdate_dict, H. Qed.
+
+Lemma carries_reports g about errs rs :
+  Forall2 (is_report_of g about) errs rs -> Forall (carries g) rs.
+Proof.
+  induction 1 as [|e r errs rs (u & l & ->) _ IH]; constructor; [apply carries_fupdate | exact IH].
+Qed.
+
+Lemma oi_carries g b l : Forall (carries g) l -> Forall (carries g) (oi b l).
+Proof. destruct b; cbn [oi]; [tauto | constructor]. Qed.
+
+Lemma send_emits_carry c s m :
+  exists l, emits l s (send c s m) /\ Forall (carries (globals s)) l.
+Proof.
+  destruct (send_emits_full c s m) as (rs & H & P). eexists. split; [exact H|].
+  constructor; [apply carries_fupdate | eapply carries_reports; exact P].
+Qed.
+
+Lemma resend_emits_carry c ms : forall s,
+  exists l, emits l s (resend c s ms) /\ Forall (carries (globals s)) l.
+Proof.
+  induction ms as [|m r IH]; intros s; cbn [resend].
+  - exists []. split; [apply emits_refl | constructor].
+  - destruct (send_emits_carry c s m) as (l1 & H1 & C1).
+    destruct (IH (send c s m)) as (l2 & H2 & C2).
+    rewrite (emits_globals _ _ _ H1) in C2.
+    exists (l1 ++ l2). split; [eapply emits_trans; eassumption | apply Forall_app; now split].
+Qed.
+
+Lemma map_log_nil (ds : list dest) : map (fun d => d_log d ++ []) ds = map d_log ds.
+Proof. apply map_ext. intros; apply app_nil_r. Qed.
+
+(* during one call, every registered destination is offered the same list l of
+   messages on top of what it had, and every message of l carries all global
+   fields in force at that call, with their current values *)
+Lemma hop_global_fields cfg s x :
+  let s' := api cfg (fst (hop_op x)) s (snd (hop_op x)) in
+  exists l, Forall (carries (globals s)) l /\
+    map d_id (dests s') = map d_id (dests_after s x) /\
+    map d_log (dests s') = map (fun d => d_log d ++ l) (dests_after s x) /\
+    globals s' = match x with HGlobals fs => fupdate (globals s) fs | _ => globals s end.
+Proof.
+  destruct x as [mt fs|ds|id|fs]; cbn [hop_op fst snd api dests_after].
+  - pose proof (stamp_here_emits s 0 mt (mkfields fs)) as (H1 & _).
+    destruct (stamp_here s 0 mt (mkfields fs)) as [s2 m]. cbn [fst snd logger_write] in *.
+    destruct (send_emits_carry 0 s2 m) as (l & H2 & C2).
+    rewrite (emits_globals _ _ _ H1) in C2.
+    pose proof (emits_trans _ _ _ _ _ H1 H2) as H. cbn [app] in H.
+    destruct H as [[a b c d e f] G].
+    exists (oi (any_added s) l). split; [now apply oi_carries|].
+    split; [exact c|]. split; [|exact G]. now rewrite e, map_map.
+  - destruct (any_added s) eqn:A.
+    + exists []. split; [constructor|]. cbn. now rewrite map_log_nil.
+    + destruct (resend_emits_carry 0 (buffer s) (set_out s true [] ds (gone s))) as (l & H & C).
+      exists l. split; [exact C|]. destruct H as [[a b c d e f] G]. cbn in *.
+      split; [exact c|]. split; [|exact G]. now rewrite e, map_map.
+  - exists []. split; [constructor|]. rewrite map_log_nil.
+    pose proof (remove_dest_spec id (dests s)) as R.
+    destruct (remove_dest id (dests s)) as [ds [d|]]; cbn [fst]; [cbn; auto|].
+    destruct R as [-> _]. auto.
+  - exists []. split; [constructor|]. cbn. now rewrite map_log_nil.
+Qed.
+
+Lemma run_globals cfg h : forall s,
+  globals (run cfg (map hop_op h) s) = globals_after (globals s) h.
+Proof.
+  unfold run. induction h as [|x r IH]; intros s; [reflexivity|]. cbn [map fold_left].
+  rewrite IH. destruct (hop_global_fields cfg s x) as (l & _ & _ & _ & G). rewrite G.
+  destruct x; reflexivity.
+Qed.
+
+(* C12 (global fields): after ANY history h (any destination behaviours), the next
+   call x offers every registered destination the same list l of messages --
+   logged message, re-sent buffered messages, failure reports -- and every one of
+   them carries every global field set by the history so far, with its latest value. *)
+Theorem C12_global_fields cfg h x :
+  let s := run cfg (map hop_op h) init_state in
+  let s' := run cfg (map hop_op (h ++ [x])) init_state in
+  exists l, Forall (carries (globals_after [] h)) l /\
+    map d_id (dests s') = map d_id (dests_after s x) /\
+    map d_log (dests s') = map (fun d => d_log d ++ l) (dests_after s x).
+Proof.
+  cbv zeta.
+  assert (E : run cfg (map hop_op (h ++ [x])) init_state =
+              api cfg (fst (hop_op x)) (run cfg (map hop_op h) init_state) (snd (hop_op x))).
+  { unfold run. now rewrite map_app, fold_left_app. }
+  rewrite E.
+  destruct (hop_global_fields cfg (run cfg (map hop_op h) init_state) x) as (l & C & I & L & _).
+  rewrite run_globals in C. exists l. auto.
+Qed.
+
+(* ===================================================================== *)
+(* the hand-over under the lock: all schedules                             *)
+
+(* where an activation of _send stands *)
+Inductive aphase := P0 | PCallOld | PCallNew | PMadeOld | PMadeNew | PBad.
+
+Definition aph (sd : sendst) : aphase :=
+  match sd_it sd, sd_pc sd with
+  | None, SFor => P0
+  | Some (LOld, 1), SCall EBuf => PCallOld
+  | Some (LNew, 1), SCall EDest => PCallNew
+  | Some (LOld, 1), (SFor | SDone) => PMadeOld
+  | Some (LNew, 1), (SFor | SDone) => PMadeNew
+  | _, _ => PBad
+  end.
+
+Definition a_ok (ta : apc) (sd : sendst) : bool :=
+  match ta, aph sd, sd_pc sd with
+  | (ARead | AAcq), P0, _ => true
+  | ARun _, (P0 | PCallOld | PCallNew), _ => true
+  | ARun _, (PMadeOld | PMadeNew), SFor => true
+  | (ARel | ADone), (PMadeOld | PMadeNew), _ => true
+  | _, _, _ => false
+  end.
+
+Definition b_ok (tb : bpc) : bool :=
+  match tb with
+  | BSend _ sd => match aph sd, sd_pc sd with
+                  | (P0 | PCallNew), _ => true
+                  | PMadeNew, SFor => true
+                  | _, _ => false
+                  end
+  | _ => true
+  end.
+
+Definition a_holds (ta : apc) : bool := match ta with ARun true | ARel => true | _ => false end.
+Definition b_holds (tb : bpc) : bool := match tb with BAcq | BDone => false | _ => true end.
+Definition b_before (tb : bpc) : bool := match tb with BAcq => true | _ => false end.
+Definition b_after (tb : bpc) : bool := match tb with BRel | BDone => true | _ => false end.
+
+Definition rel_ok (ta : apc) (sd : sendst) (tb : bpc) : bool :=
+  negb (a_holds ta && b_holds tb) &&
+  match aph sd with
+  | PCallOld => b_before tb
+  | PMadeOld => if a_holds ta then b_before tb else true
+  | PCallNew | PMadeNew => b_after tb
+  | _ => true
+  end &&
+  match ta with ARun false => b_after tb | _ => true end.
+
+Definition lock_exp (ta : apc) (tb : bpc) : option nat :=
+  if a_holds ta then Some 0 else if b_holds tb then Some 1 else None.
+
+Definition stage_exp (tb : bpc) : lst * list elem * bool :=
+  match tb with
+  | BAcq | BRead | BGrab | BRebind => (LOld, [], false)
+  | BExtend => (LNew, [], false)
+  | BTest | BFor _ | BSend _ _ | BSet => (LNew, [EDest], false)
+  | BRel | BDone => (LNew, [EDest], true)
+  end.
+
+(* number of buffered messages re-sent so far; n = current length of the buffer list *)
+Definition jb (tb : bpc) (n : nat) : nat :=
+  match tb with
+  | BFor i => i
+  | BSend i sd => match aph sd with PMadeNew => i | _ => pred i end
+  | BSet | BRel | BDone => n
+  | _ => 0
+  end.
+
+Section Race.
+Variables (pre : list nat) (m : nat).
+
+Definition own_buf (sd : sendst) : list nat := match aph sd with PMadeOld => [m] | _ => [] end.
+Definition own_dlv (sd : sendst) : list nat := match aph sd with PMadeNew => [m] | _ => [] end.
+
+Record Inv (st : rstate) : Prop := mkInv {
+  i_a : a_ok (ta st) (sa st) = true;
+  i_b : b_ok (tb st) = true;
+  i_rel : rel_ok (ta st) (sa st) (tb st) = true;
+  i_msg : sd_msg (sa st) = m;
+  i_lock : lock (sh st) = lock_exp (ta st) (tb st);
+  i_stage : (dl (sh st), newl (sh st), anyadd (sh st)) = stage_exp (tb st);
+  i_buf : buf (sh st) = pre ++ own_buf (sa st);
+  i_dlog : dlog (sh st) =
+           firstn (jb (tb st) (length (buf (sh st)))) (buf (sh st)) ++ own_dlv (sa st);
+  i_idx : match tb st with
+          | BFor i => i <= length (buf (sh st))
+          | BSend i sd => 1 <= i /\ nth_error (buf (sh st)) (pred i) = Some (sd_msg sd)
+          | _ => True
+          end
+}.
+
+Lemma inv_init : Inv (rinit pre m).
+Proof. constructor; cbn; try reflexivity; auto. now rewrite app_nil_r. Qed.
+
+Lemma firstn_succ_nth {A} (l : list A) i x :
+  nth_error l i = Some x -> firstn (S i) l = firstn i l ++ [x].
+Proof.
+  revert i. induction l as [|y r IH]; intros [|i] H; try discriminate; cbn in *.
+  - now inversion H.
+  - now rewrite (IH i H).
+Qed.
+
+Lemma nth_error_lt {A} (l : list A) i x : nth_error l i = Some x -> i < length l.
+Proof. intros H. apply nth_error_Some. congruence. Qed.
+
+Lemma a_step_inv st : Inv st -> Inv (a_step st).
+Proof.
+  intros [Ia Ib Ir Im Il Is Ibuf Id Ii].
+  destruct st as [[dl newl aa buf dlog lock] ta [am ait apc] tb].
+  cbn [Handover.sh Handover.ta Handover.sa Handover.tb Handover.dl Handover.newl Handover.anyadd
+       Handover.buf Handover.dlog Handover.lock sd_msg] in *.
+  subst am.
+  unfold a_step.
+  cbn [Handover.sh Handover.ta Handover.sa Handover.tb].
+  destruct ta as [| |lk| |];
+    destruct ait as [[[|] [|[|k]]]|]; destruct apc as [|[|]|]; cbn in Ia; try discriminate Ia;
+    destruct tb as [| | | | | |i|i bsd| | |]; cbn in Ir; try discriminate Ir;
+    cbn in Is; inversion Is; subst; clear Is;
+    try (destruct lk; cbn in Ir; try discriminate Ir);
+    cbn [send_step sd_pc sd_it sd_msg items Handover.dl Handover.newl nth_error fst snd lock_free
+         Handover.lock Nat.eqb set_lock lock_exp a_holds b_holds Handover.anyadd Handover.buf Handover.dlog];
+    (constructor; cbn; auto).
+  all: now rewrite ?app_nil_r.
+Qed.
+
+Lemma b_step_inv st : Inv st -> Inv (b_step st).
+Proof.
+  intros [Ia Ib Ir Im Il Is Ibuf Id Ii].
+  destruct st as [[dl newl aa buf dlog lock] ta [am ait apc] tb].
+  cbn [Handover.sh Handover.ta Handover.sa Handover.tb Handover.dl Handover.newl Handover.anyadd
+       Handover.buf Handover.dlog Handover.lock sd_msg] in *.
+  subst am.
+  unfold b_step.
+  cbn [Handover.sh Handover.ta Handover.sa Handover.tb].
+  revert Ibuf Id Ii.
+  destruct tb as [| | | | | |i|i [bm [[[|] [|[|k]]]|] [|[|]|]]| | |]; cbn in Ib; try discriminate Ib;
+    destruct ta as [| |lk| |];
+    destruct ait as [[[|] [|[|k']]]|]; destruct apc as [|[|]|]; cbn in Ia; try discriminate Ia;
+    try (destruct lk); cbn in Ir; try discriminate Ir;
+    cbn in Is; inversion Is; subst; clear Is;
+    cbn [send_step sd_pc sd_it sd_msg items Handover.dl Handover.newl nth_error fst snd lock_free
+         Handover.lock Nat.eqb set_lock Handover.anyadd Handover.buf Handover.dlog lock_exp a_holds b_holds];
+    intros Ibuf Id Ii;
+    try (lazymatch goal with
+         | |- context [BFor 0] => destruct buf as [|b0 buf0] eqn:Eb; [|rewrite <- Eb in *]
+         | |- context [nth_error buf i] => destruct (nth_error buf i) as [x|] eqn:En
+         end);
+    (constructor; cbn; auto; try lia).
+  all: cbn in Id; rewrite ?app_nil_r in *.
+  all: first
+    [ split; [lia | assumption]
+    | destruct Ii as [I1 I2]; apply nth_error_lt in I2; lia
+    | destruct Ii as [I1 I2]; destruct i as [|i]; [lia|]; cbn [pred] in *;
+      rewrite (firstn_succ_nth _ _ _ I2); now subst dlog
+    | apply nth_error_None in En; replace (length buf) with i by lia; assumption
+    | idtac ].
+Qed.
+
+Lemma rstep_inv st t : Inv st -> Inv (rstep st t).
+Proof.
+  intros H. destruct t as [|[|t]]; cbn [rstep]; [now apply a_step_inv | now apply b_step_inv | exact H].
+Qed.
+
+Lemma rrun_inv sched : forall st, Inv st -> Inv (rrun sched st).
+Proof.
+  unfold rrun. induction sched as [|t r IH]; intros st H; [exact H|]. cbn [fold_left].
+  apply IH, rstep_inv, H.
+Qed.
+
+Lemma reach_inv sched : Inv (rrun sched (rinit pre m)).
+Proof. apply rrun_inv, inv_init. Qed.
+
+(* whenever both calls have returned, the destination has received exactly the
+   buffered messages, in order, followed by the concurrently logged one *)
+Lemma inv_finished st : Inv st -> finished st = true -> delivered st = pre ++ [m].
+Proof.
+  intros [Ia Ib Ir Im Il Is Ibuf Id Ii] F.
+  destruct st as [[dl newl aa buf dlog lock] ta [am ait apc] tb].
+  unfold finished, a_done, b_done, delivered in *.
+  cbn [Handover.sh Handover.ta Handover.sa Handover.tb Handover.dl Handover.newl Handover.anyadd
+       Handover.buf Handover.dlog Handover.lock sd_msg] in *.
+  destruct ta; try discriminate F. destruct tb; try discriminate F.
+  cbn [jb] in Id. rewrite firstn_all in Id. subst dlog buf.
+  destruct ait as [[[|] [|[|k]]]|]; destruct apc as [|[|]|]; cbn in Ia; try discriminate Ia;
+    cbn; now rewrite ?app_nil_r, <- ?app_assoc.
+Qed.
+
+(* at every moment what the destination has received is an initial segment of
+   buffered messages ++ [concurrent message] *)
+Lemma inv_prefix st : Inv st -> exists k, delivered st = firstn k (pre ++ [m]).
+Proof.
+  intros [Ia Ib Ir Im Il Is Ibuf Id Ii].
+  destruct st as [[dl newl aa buf dlog lock] ta [am ait apc] tb]. unfold delivered.
+  cbn [Handover.sh Handover.ta Handover.sa Handover.tb Handover.dl Handover.newl Handover.anyadd
+       Handover.buf Handover.dlog Handover.lock sd_msg] in *.
+  set (j := jb tb (length buf)) in *.
+  assert (P : forall j, exists k, firstn j pre = firstn k (pre ++ [m])).
+  { intros j0. exists (Nat.min j0 (length pre)). rewrite firstn_app.
+    replace (Nat.min j0 (length pre) - length pre) with 0 by lia. cbn [firstn]. rewrite app_nil_r.
+    destruct (Nat.le_ge_cases j0 (length pre)).
+    - now rewrite Nat.min_l.
+    - rewrite Nat.min_r by assumption. now rewrite firstn_all, firstn_all2. }
+  unfold own_buf, own_dlv in *. destruct (aph {| sd_msg := am; sd_it := ait; sd_pc := apc |}) eqn:E;
+    rewrite ?app_nil_r in *; subst buf dlog; try apply P; subst am.
+  - exists j. reflexivity.
+  - (* delivered directly: the hand-over is complete *)
+    unfold rel_ok in Ir. rewrite E in Ir. apply andb_true_iff in Ir as [Ir _].
+    apply andb_true_iff in Ir as [_ Ir].
+    assert (j = length pre) as -> by (subst j; destruct tb; try discriminate Ir; reflexivity).
+    exists (length (pre ++ [m])). now rewrite firstn_all, firstn_all.
+Qed.
+
+(* no deadlock: as long as a call has not returned, some thread can take a step *)
+Lemma inv_progress st : Inv st -> finished st = false -> label st 0 <> 0 \/ label st 1 <> 0.
+Proof.
+  intros [Ia Ib Ir Im Il Is Ibuf Id Ii] F.
+  destruct st as [[dl newl aa buf dlog lock] ta [am ait apc] tb].
+  unfold finished, a_done, b_done in F.
+  cbn [Handover.sh Handover.ta Handover.sa Handover.tb Handover.dl Handover.newl Handover.anyadd
+       Handover.buf Handover.dlog Handover.lock sd_msg label] in *.
+  destruct tb as [| | | | | |i|i [bm [[[|] [|[|k]]]|] [|[|]|]]| | |]; cbn in Ib; try discriminate Ib;
+    destruct ta as [| |lk| |];
+    destruct ait as [[[|] [|[|k']]]|]; destruct apc as [|[|]|]; cbn in Ia; try discriminate Ia;
+    try (destruct lk); cbn in Ir; try discriminate Ir; try discriminate F;
+    cbn in Il; subst lock; cbn;
+    first [left; discriminate | right; discriminate].
+Qed.
+End Race.
+
+(* C12 (hand-over, the code as it is now): for ALL schedules of the logging thread
+   and the thread performing the first add, for any buffered messages pre and any
+   concurrently logged message m: *)
+
+Lemma NoDup_app_l {A} (a b : list A) : NoDup (a ++ b) -> NoDup a.
+Proof.
+  induction a as [|x r IH]; cbn; intros H; [constructor|]. inversion H; subst.
+  constructor; [intros Hin; apply H2, in_or_app; now left | now apply IH].
+Qed.
+
+(* nothing is delivered twice -- at any moment of any schedule *)
+Theorem C12_handover_no_dup pre m sched :
+  NoDup (pre ++ [m]) -> NoDup (delivered (rrun sched (rinit pre m))).
+Proof.
+  intros ND. destruct (inv_prefix pre m _ (reach_inv pre m sched)) as (k & ->).
+  rewrite <- (firstn_skipn k (pre ++ [m])) in ND. exact (NoDup_app_l _ _ ND).
+Qed.
+
+(* once both calls have returned nothing is lost: every buffered message and the
+   concurrent message have been delivered *)
+Theorem C12_handover_no_loss pre m sched :
+  finished (rrun sched (rinit pre m)) = true ->
+  forall x, In x (pre ++ [m]) -> In x (delivered (rrun sched (rinit pre m))).
+Proof.
+  intros F x Hx. now rewrite (inv_finished pre m _ (reach_inv pre m sched) F).
+Qed.
+
+(* order: the buffered messages first, in order, then the concurrent one -- also
+   when its sender saw _any_added = True and did not take the lock; before the end
+   the destination holds an initial segment of that sequence *)
+Theorem C12_handover_order pre m sched :
+  (exists k, delivered (rrun sched (rinit pre m)) = firstn k (pre ++ [m])) /\
+  (finished (rrun sched (rinit pre m)) = true ->
+   delivered (rrun sched (rinit pre m)) = pre ++ [m]).
+Proof.
+  split; [apply inv_prefix, reach_inv | apply inv_finished, reach_inv].
+Qed.
+
+(* the lock introduces no deadlock: in every reachable state with an unfinished
+   call some thread is enabled (so the theorems above are not vacuous: every fair
+   schedule finishes) *)
+Theorem C12_handover_no_deadlock pre m sched :
+  let st := rrun sched (rinit pre m) in
+  finished st = false -> label st 0 <> 0 \/ label st 1 <> 0.
+Proof. cbv zeta. apply (inv_progress pre m), reach_inv. Qed.
+
+(* non-vacuity: three finishing schedules -- logging thread first; logging thread
+   blocked on the lock in the middle of the hand-over; logging thread reading the
+   flag after the hand-over (no lock taken) *)
+Example C12_handover_ex :
+  let run := fun sched => let st := rrun sched (rinit [1; 2] 3) in (finished st, delivered st, buf (sh st)) in
+  run (repeat 0 6 ++ repeat 1 40) = (true, [1; 2; 3], [1; 2; 3]) /\
+  run (repeat 1 8 ++ repeat 0 3 ++ repeat 1 40 ++ repeat 0 6) = (true, [1; 2; 3], [1; 2]) /\
+  run (repeat 1 40 ++ repeat 0 6) = (true, [1; 2; 3], [1; 2]) /\
+  map snd (labels (repeat 1 40 ++ repeat 0 4) (rinit [1; 2] 3)) =
+    [10; 3; 5; 6; 7; 8; 9; 1; 2; 1; 9; 1; 2; 1; 9; 4; 11] ++ repeat 0 23 ++ [3; 1; 2; 1].
+Proof. vm_compute. repeat split. Qed.
+
+(* ---- the code before the repair ------------------------------------------------ *)
+(* C12 was FALSE of the unsynchronised hand-over (finding F5, repaired in /repo):
+   with one buffered message 1 and the concurrent message 2,
+   (a) the logging thread obtains its iterator over the old list [buffer], the
+       adding thread runs completely, the logging thread then appends to the
+       orphaned buffer: message 2 is lost;
+   (b) the adding thread has rebound self._destinations = [] but not yet extended
+       it, the logging thread iterates over the empty list: message 2 is lost and
+       not even buffered;
+   (c) the adding thread has extended the list but not yet re-sent the buffer, the
+       logging thread delivers directly: message 2 overtakes buffered message 1. *)
+Theorem C12_handover_legacy_refuted :
+  (exists sched, let st := Legacy.rrun sched (Legacy.rinit [1] 2) in
+     Legacy.finished st = true /\ ~ In 2 (Legacy.delivered st) /\ buf (Legacy.sh st) = [1; 2]) /\
+  (exists sched, let st := Legacy.rrun sched (Legacy.rinit [1] 2) in
+     Legacy.finished st = true /\ ~ In 2 (Legacy.delivered st) /\ buf (Legacy.sh st) = [1]) /\
+  (exists sched, let st := Legacy.rrun sched (Legacy.rinit [1] 2) in
+     Legacy.finished st = true /\ Legacy.delivered st = [2; 1]).
+Proof.
+  split; [|split].
+  - exists ([0] ++ repeat 1 11 ++ [0; 0]). vm_compute. repeat split. intros [H|[]]. discriminate.
+  - exists (repeat 1 4 ++ [0] ++ repeat 1 7). vm_compute. repeat split. intros [H|[]]. discriminate.
+  - exists (repeat 1 5 ++ [0; 0; 0] ++ repeat 1 6). vm_compute. repeat split.
+Qed.
+
+(* non-vacuity of the global-fields theorem: with a healthy, a broken and a flaky
+   destination, the first add after two buffered messages offers each destination
+   the two messages and the failure reports, all carrying the field set before *)
+Example C12_global_fields_ex :
+  let h := [HGlobals [(30%positive, VInt 7)]; HLog (VTypeName 10%positive) [];
+            HLog (VTypeName 11%positive) [(30%positive, VInt 0)]] in
+  map (fun d => map (fget 30%positive) (d_log d))
+      (dests (run ex_cfg (map hop_op (h ++ [HAdd ex_ds3])) init_state)) =
+  let l := repeat (Some (VInt 7)) 5 in [l; l; l].
+Proof. vm_compute. reflexivity. Qed.
